@@ -88,8 +88,21 @@ def make_files(r, k, cues, outs, single=False, empty_out=0.2):
                 e = gen.event(r, cues=cues, outs=outs, max_cues=min(3, len(cues)), max_outs=min(2, len(outs)),
                               empty_out=empty_out)
                 es.append(e)
-        files.append({'name': name, 'events': es})
+        f = {'name': name, 'events': es}
+        if r.random() < 0.3:
+            # a third (frequency) column 0..3, zeros included, never all zero: the file then MEANS n_meant(f) events,
+            # and that is what number_events must report
+            f['freq'] = gen.freqs(r, n)
+        files.append(f)
     return files
+
+
+def n_meant(f):
+    """the number of events a file means: its lines, each repeated by its frequency (if it has that column)"""
+    return len(f['events']) if f.get('freq') is None else sum(f['freq'])
+
+
+PER_FILE = [None, None, 2, 2, 3]     # events_per_temporary_file of ndl.ndl / wh.wh: None = not passed (10000000)
 
 
 def table(r, labels, dims):
@@ -120,6 +133,9 @@ def chain_rw(r, k):
                  'lambda': r.choice(LAMBDAS), 'method': r.choice(['threading', 'openmp']),
                  'n_jobs': r.choice([1, 2, 3]), 'per_job': r.choice([1, 2, 10]),
                  'form': 'generator' if r.random() < 0.08 else 'path'}
+            if s['form'] == 'path' and r.random() < 0.3:
+                s['form'] = 'pathobj'       # a pathlib.Path: the event_path entry must be str(path)
+            s['per_file'] = r.choice(PER_FILE)
         else:
             nxt_dict = i + 1 < k and kinds[i + 1] == 'dict_ndl'
             s = {'kind': 'call', 'learner': 'dict_ndl', 'file': i, 'alpha': fl_alpha(r), 'beta1': b1, 'beta2': b2,
@@ -153,7 +169,7 @@ def chain_wh(r, k, flavour):
     for i in range(k):
         methods = ['openmp', 'numpy'] if single else ['openmp']
         steps.append({'kind': 'call', 'learner': flavour, 'file': i, 'eta': r.choice(ETAS),
-                      'method': r.choice(methods), 'n_jobs': r.choice([1, 2])})
+                      'method': r.choice(methods), 'n_jobs': r.choice([1, 2]), 'per_file': r.choice(PER_FILE)})
     case['steps'] = with_saves(r, steps)
     return case
 
@@ -233,9 +249,9 @@ def model_request(case, impl):
             continue
         ist = isteps[si] if si < len(isteps) else {}
         l = s['learner']
-        n = len(case['files'][s['file']]['events'])
+        n = n_meant(case['files'][s['file']])
         o = {'kind': 'call', 'learner': l, 'number_events': str(n),
-             'path': ist.get('passed_path') if s.get('form', 'path') == 'path' else None,
+             'path': ist.get('passed_path') if s.get('form', 'path') in ('path', 'pathobj') else None,
              'method': str(s.get('method'))}
         if l in ('ndl', 'dict_ndl'):
             a = lit(s['alpha'])
@@ -318,10 +334,10 @@ def compare(case, impl, model):
         # the property predicate itself, without the model
         if case.get('uniform'):
             ne = [e.rstrip(' ') for e in str(a.get('number_events', '')).split(' | ')]
-            want = [str(len(case['files'][cs['file']]['events'])) for cs in call_steps]
+            want = [str(n_meant(case['files'][cs['file']])) for cs in call_steps]
             if ne != want:
                 probs.append((si, 'PROPERTY: number_events entries %r, events in the files %r' % (ne, want)))
-            if s.get('form', 'path') == 'path':
+            if s.get('form', 'path') in ('path', 'pathobj'):
                 ep = str(a.get('event_path', '')).split(' | ')[-1].rstrip(' ')
                 if ep != ist.get('passed_path'):
                     probs.append((si, 'PROPERTY: event_path entry %r, path passed %r' % (ep, ist.get('passed_path'))))
@@ -372,11 +388,33 @@ def shrink(pool, driver, case, first_bad, budget=14):
         for fi in range(len(cur['files'])):
             if used >= budget or len(cur['files'][fi]['events']) <= 1:
                 continue
-            c = copy.deepcopy(cur)
-            c['files'][fi]['events'] = c['files'][fi]['events'][:1]
-            if still(c):
-                cur = c
-                changed = True
+            for keep in (1, 2, 4):
+                if used >= budget or keep >= len(cur['files'][fi]['events']):
+                    break
+                c = copy.deepcopy(cur)
+                c['files'][fi]['events'] = c['files'][fi]['events'][:keep]
+                if c['files'][fi].get('freq') is not None:
+                    fr = c['files'][fi]['freq'][:keep]
+                    c['files'][fi]['freq'] = fr if any(fr) else [1] + fr[1:]
+                if still(c):
+                    cur = c
+                    changed = True
+                    break
+        for fi in range(len(cur['files'])):
+            if used < budget and cur['files'][fi].get('freq') is not None:
+                c = copy.deepcopy(cur)
+                del c['files'][fi]['freq']
+                if still(c):
+                    cur = c
+                    changed = True
+        for i, st in enumerate(cur['steps']):
+            for k, v in (('per_file', None), ('form', 'path')):
+                if used < budget and st.get('kind') == 'call' and st.get(k) not in (None, v) and (k != 'form' or st[k] == 'pathobj'):
+                    c = copy.deepcopy(cur)
+                    c['steps'][i][k] = v
+                    if still(c):
+                        cur = c
+                        changed = True
     # drop files no call refers to any more
     used_files = sorted({s['file'] for s in cur['steps'] if s['kind'] == 'call'})
     remap = {old: new for new, old in enumerate(used_files)}
@@ -390,7 +428,7 @@ def shrink(pool, driver, case, first_bad, budget=14):
 def python_snippet(case):
     lines = ['# files written with the documented text format (cues\\toutcomes, "_"-joined), names/events:']
     for f in case['files']:
-        lines.append('#   %r: %r' % (f['name'], f['events'][:4]))
+        lines.append('#   %r: %r%s' % (f['name'], f['events'][:4], '' if f.get('freq') is None else '  third column (frequency): %r' % (f['freq'],)))
     lines.append('w = None')
     for s in case['steps']:
         if s['kind'] == 'save_load':
@@ -398,9 +436,11 @@ def python_snippet(case):
             continue
         f = case['files'][s['file']]['name']
         l = s['learner']
+        per = '' if s.get('per_file') is None else ', events_per_temporary_file=%d' % s['per_file']
         if l == 'ndl':
-            lines.append("w = ndl.ndl(%r, %s, (%s, %s), %s, method=%r, weights=w)  # form=%s"
-                         % (f, s['alpha'], s['beta1'], s['beta2'], s['lambda'], s['method'], s.get('form')))
+            lines.append("w = ndl.ndl(%s, %s, (%s, %s), %s, method=%r, weights=w%s)  # form=%s"
+                         % ('pathlib.Path(%r)' % f if s.get('form') == 'pathobj' else repr(f), s['alpha'], s['beta1'], s['beta2'],
+                            s['lambda'], s['method'], per, s.get('form')))
         elif l == 'dict_ndl':
             lines.append("w = ndl.dict_ndl(%r, %s, (%s, %s), %s, weights=w, make_data_array=%r)  # form=%s"
                          % (f, s['alpha'], s['beta1'], s['beta2'], s['lambda'], s.get('make_data_array', True), s.get('form')))
@@ -409,14 +449,14 @@ def python_snippet(case):
                          % (f, s['eta'], s.get('make_data_array', False)))
         else:
             kw = {'wh_r2r': 'cue_vectors=cv, outcome_vectors=ov', 'wh_b2r': 'outcome_vectors=ov', 'wh_r2b': 'cue_vectors=cv'}[l]
-            lines.append("w = wh.wh(%r, %s, %s, method=%r, weights=w)" % (f, s['eta'], kw, s['method']))
+            lines.append("w = wh.wh(%r, %s, %s, method=%r, weights=w%s)" % (f, s['eta'], kw, s['method'], per))
     lines.append("print({k: [e.rstrip(' ') for e in v.split(' | ')] for k, v in w.attrs.items()})")
     return '\n'.join(lines)
 
 
 def describe(case):
-    return {'stream': case['stream'], 'files': [(f['name'], len(f['events'])) for f in case['files']],
-            'steps': [(s.get('learner', 'save_load'), s.get('method'), s.get('form')) for s in case['steps']]}
+    return {'stream': case['stream'], 'files': [(f['name'], len(f['events']), f.get('freq')) for f in case['files']],
+            'steps': [(s.get('learner', 'save_load'), s.get('method'), s.get('form'), s.get('per_file')) for s in case['steps']]}
 
 
 def run(rep, pool, driver, tier):
@@ -436,6 +476,14 @@ def run(rep, pool, driver, tier):
             rep.count('learner:' + s['learner'] + ('/' + s['method'] if s.get('method') else ''))
             if s.get('form') in ('list', 'generator'):
                 rep.count('non_path_input:' + s['learner'])
+            if s['learner'] == 'ndl':
+                rep.count('ndl_events_form:%s' % s.get('form', 'path'))
+            f = c['files'][s['file']]
+            nm = n_meant(f)
+            chunks = 1 if s.get('per_file') is None else (nm + s['per_file'] - 1) // s['per_file']
+            rep.count('call_file:%s/%s' % ('freq column' if f.get('freq') is not None else 'no freq column',
+                                           'chunking not applicable' if s['learner'] in ('dict_ndl', 'dict_wh') or s.get('method') == 'numpy'
+                                           else '1 chunk file' if chunks == 1 else '2-10 chunk files' if chunks <= 10 else '>=11 chunk files'))
         for st in impl.get('steps', []):
             if 'labels' in st:
                 if '' in st['labels']:
